@@ -58,3 +58,82 @@ def replay_pattern_function(obligation: str = "", model: Optional[Dict[str, str]
                 return {"confirmed": True, "input": {"pattern": pat},
                         "observed": "a pattern that is empty / not anchored at both ends in one alternative is accepted"}
     return {"confirmed": False}
+
+
+# ---------------------------------------------------------------------------------------------------------------
+# bounded stand-in for the front end as a whole: token- and line-level mutants of valid meta-models never make
+# run.load_model raise (they may be accepted or rejected)
+
+def _mutants(text: str) -> Any:
+    import io
+    import tokenize
+    lines = text.splitlines(keepends=True)
+    for i in range(len(lines)):
+        yield ("delete line", i + 1, "".join(lines[:i] + lines[i + 1:]))
+        yield ("duplicate line", i + 1, "".join(lines[:i + 1] + lines[i:]))
+        if i + 1 < len(lines):
+            yield ("swap lines", i + 1, "".join(lines[:i] + [lines[i + 1], lines[i]] + lines[i + 2:]))
+    try:
+        toks = list(tokenize.generate_tokens(io.StringIO(text).readline))
+    except (tokenize.TokenError, IndentationError, SyntaxError):
+        return
+    names = sorted({t.string for t in toks if t.type == tokenize.NAME})
+    offsets = [0]
+    for ln in lines:
+        offsets.append(offsets[-1] + len(ln))
+    for k, t in enumerate(toks):
+        if t.type not in (tokenize.NAME, tokenize.STRING, tokenize.NUMBER, tokenize.OP):
+            continue
+        a = offsets[t.start[0] - 1] + t.start[1]
+        b = offsets[t.end[0] - 1] + t.end[1]
+        if t.type == tokenize.NAME:
+            alts = ["None", "self", "str", "Optional", "List", "x_1", names[(names.index(t.string) + 1) % len(names)],
+                    names[(names.index(t.string) + 7) % len(names)]]
+        elif t.type == tokenize.STRING:
+            alts = ['""', '"^$"', '"*"', "1", 'f"{x}"', '"\\u00b2"', "None"]
+        elif t.type == tokenize.NUMBER:
+            alts = ["0", "-1", '"1"', "1.5", "None"]
+        else:
+            alts = {"(": ["[", ""], ")": ["]", ""], "[": ["(", ""], "]": [")", ""], ",": ["", ";"], ":": ["", "="],
+                    "=": ["==", ":"], ".": ["", ","], "->": ["", ":"], ">=": ["<", "=="], ">": [">=", "in"],
+                    "@": [""]}.get(t.string, [""])
+        for alt in alts:
+            if alt != t.string:
+                yield (f"token {t.string!r} -> {alt!r}", t.start[0], text[:a] + alt + text[b:])
+
+
+def _try_load(args: Any) -> Optional[Dict[str, Any]]:
+    what, line, text = args
+    with tempfile.TemporaryDirectory() as d:
+        why = _load(text, d)
+    if why is not None:
+        return {"mutation": what, "line": line, "observed": why, "meta_model": text}
+    return None
+
+
+def mutation_sweep(seed: int = 0, with_recorded: bool = False, jobs: int = 16, **_: Any) -> Dict[str, Any]:
+    import multiprocessing as mp
+    import os
+    sources = [("base", c06.BASE)]
+    repo = pathlib.Path(os.environ.get("VERIF_REPO", "/repo"))
+    if not (repo / "dev").exists():
+        repo = pathlib.Path("/repo")
+    if with_recorded:
+        for pat in ("dev/test_data/intermediate/expected/**/meta_model.py", "dev/test_data/parse/expected/**/meta_model.py",
+                    "dev/test_data/common_meta_models/*.py", "dev/test_data/intermediate/unexpected/**/meta_model.py",
+                    "dev/test_data/parse/unexpected/**/meta_model.py"):
+            for p in sorted(repo.glob(pat)):
+                if p.stat().st_size < 6000:
+                    sources.append((str(p.relative_to(repo)), p.read_text(encoding="utf-8")))
+    tasks = []
+    for _name, text in sources:
+        tasks.extend(_mutants(text))
+    with mp.get_context("fork").Pool(jobs) as pool:
+        res = pool.map(_try_load, tasks, chunksize=32)
+    failures: Dict[str, Dict[str, Any]] = {}
+    for r in res:
+        if r is not None:
+            failures.setdefault(r["observed"][:60], r)
+    return {"cases": len(tasks), "distinct": len(sources), "failures": list(failures.values())[:8], "exhaustive": True,
+            "n_failing": sum(1 for r in res if r is not None),
+            "samples": [{"sources": [n for n, _ in sources][:5], "mutants": len(tasks)}]}
